@@ -160,6 +160,18 @@ Theorem C08_lowrank_bad_sigma_poisons_window :
 Proof. exact lr_bad_sigma_poisons_row. Qed.
 Print Assumptions C08_lowrank_bad_sigma_poisons_window.
 
+(* ... and nothing else can come out of sigma = sqrt(sqrt(var(x)/var(g))): for EVERY pair of
+   binary64 variances the scale is either in [2^-1022, 2^1022] (the hypothesis of
+   C08_lowrank_scales_finite_positive) or it poisons its row *)
+Theorem C08_lowrank_sigma_in_range_or_poison :
+  forall dv gv : f64,
+    let s := lr_sigma dv gv in
+    good s \/
+    (forall v mu, is_finite (lr_draw_scaled v mu s) = false) \/
+    (forall g, is_finite (lr_grad_scaled g s) = false).
+Proof. exact lr_sigma_good_or_poison. Qed.
+Print Assumptions C08_lowrank_sigma_in_range_or_poison.
+
 (* the eigenvalue filter keeps exactly the eigenvalues outside [1/cutoff, cutoff]; NaN is dropped,
    +inf is kept (and then rejected by the gate) *)
 Theorem C08_lowrank_filter :
